@@ -13,5 +13,13 @@ def run(ctx):
               desc='render functions produced by a render factory (constructor list, add(), re-bound on embedding): one that takes next (required or defaulted) is rejected with NameError at construction'),
            Ob('nonunique_conflict', 'ob_nonunique_conflict', '', packed=[('level_a', 3), ('level_b', 3), ('same_name', 2, 'bool'), ('cls_i', 1)], timeout=tmo, confirm='confirm_nonunique_conflict',
               desc='two instances of one NON-unique middleware type at outer / embedded / route level: offering the same name is a NameError, different names are fine')]
+    obs += [Ob('embedded_conflict', 'ob_embedded_conflict', '', packed=[('a', 12), ('b', 12), ('same_name', 2, 'bool'), ('depth2', 2, 'bool')],
+               cells=[('a%d' % a, [dict(a=a)]) for a in range(12)], timeout=tmo, confirm='confirm_embedded_conflict',
+               desc='every pair of 12 source positions around an embedding (outer resource / outer middleware in 3 phases / URL binding in the embedding prefix / '
+                    'inner resource / inner middleware in 3 phases / inner route middleware / inner route resource / inner URL binding), depth 1 and 2: the same name from two '
+                    'different sources is a NameError at construction of the OUTER application, resources of different levels are one source'),
+            Ob('instance_hooks', 'ob_instance_hooks', '', packed=[('ngood', 3), ('phase', 3), ('bad', 3), ('level', 3)], timeout=tmo, confirm='confirm_instance_hooks',
+               desc='middleware hooks assigned per instance (the ContextProcessor idiom): after 0-2 well-formed instances of the same class were accepted by other applications, '
+                    'an instance whose request/endpoint/render hook does not take next first is rejected with TypeError at application / route / embedding level')]
     res.merge(run_obligations('C04', 'harness.c04', obs, ctx.tier))
     return res
